@@ -200,7 +200,13 @@ def param_clobber(model, R):
             target = 'reader' if f.name == 'loadf' else 'write_csv_file'
             calls = [n for n in walk(f.body) if isinstance(n, ast.Call) and (chain(n.func) or [''])[-1] == target]
             ok = len(calls) == 1 and any(k.arg == 'dialect' and name_is(k.value, param) for k in calls[0].keywords)
-            R.check(ok, 'PARAMS', f, calls[0] if calls else f.node, f'{f.name}: csv {target} receives that dialect', f'{target}(..., dialect=dialect)')
+            # csv.reader(file, dialect=...) / write_csv_file(file, rows, header, dialect, encoding): one call found and no dialect in it
+            # (neither keyword nor ** nor the positional slot) means the default dialect is used whatever the caller asked for
+            dropped = (len(calls) == 1 and not any(k.arg in ('dialect', None) for k in calls[0].keywords)
+                       and len(calls[0].args) <= (1 if target == 'reader' else 3) and not any(isinstance(a_, ast.Starred) for a_ in calls[0].args))
+            R.check(ok, 'PARAMS', f, calls[0] if calls else f.node, f'{f.name}: csv {target} receives that dialect', f'{target}(..., dialect=dialect)',
+                    (src(calls[0])[:100] + ' passes no dialect') if dropped else None, strict=True if dropped else None,
+                    extra={'consequence': 'the text is written/read with the default dialect: a reader using the dialect the caller asked for gets other cells'} if dropped else None)
     # dumps / loads go through the same dumpf / loadf with the class newline
     ds = model.func('formats.base.Format.dumps')
     sio = [n for n in walk(ds.body) if isinstance(n, ast.Call) and (chain(n.func) or [''])[-1] == 'StringIO']
